@@ -21,7 +21,7 @@ theorem mapConn_step (w : W) (id0 : Nat) (f : Conn → Conn) (hf : ∀ c, (f c).
     cases hw : w.users with
     | none => simp [hw] at h
     | some l => simp [hw] at h; exact ⟨l, rfl, by rw [← h]; simp⟩
-  refine ⟨⟨i.crashed, i.inError, i.inMeh, ?_, i.inj, ?_, ?_, ?_, ?_⟩, ?_, fun _ _ _ _ _ h => h, ?_, rfl, rfl⟩
+  refine ⟨⟨i.crashed, i.inError, i.inMeh, ?_, i.inj, ?_, ?_, ?_, ?_⟩, ?_, fun _ _ _ _ _ h => h, ?_, rfl, rfl, TrExt.of_eq rfl⟩
   · intro o id ho
     rw [findConn_mapConn w id0 f hf]
     have := i.live o id ho
@@ -156,7 +156,7 @@ theorem alloc_step (w : W) (i : Nat) (l' : List (Option Conn)) (c : Conn)
     intro o' ho
     have hl := inv.live o' c.id ho
     rw [hnew] at hl; simp at hl) inv1
-  exact ⟨i2, ⟨fun _ => rfl, rfl, rfl⟩⟩
+  exact ⟨i2, ⟨fun _ => rfl, rfl, rfl, TrExt.of_eq rfl⟩⟩
 
 theorem grow_find (c : Prop) [Decidable c] (l : List (Option Conn)) (n id : Nat) :
     findIn (if c then l ++ List.replicate n none else l) id = findIn l id := by
